@@ -221,37 +221,69 @@ def run(prog, rep, tier, repo):
                             c.path, show_expr(el)[:120] if el is not None else '?'), site_of(c.span), proof=False)
     f = prog.func(RS + 'jackknife')
     if f is not None:
+        # segment-list abstraction (cva/segs.py): the i-th resample must be data[0..i) ++ data[i+1..len), for i over 0..len(data)
+        from ..segs import SegEval, Unknown, normalise
+        from ..poly import pshow
         key = 'counts:%sjackknife' % RS
         data = ('arg', 1, f.names.get(1))
         rets = f.return_values()
-        loops = [li for li in f.loop_info() if li['item'] is not None]
-        pushes = [c for c in f.calls() if c.path and short(c.path) == 'push' and rets and c.args[0] == rets[0]]
-        problems = []
-        if len(loops) != 1 or loops[0]['iter'] != ('range', ('const', 'usize', 0), ('len', data)):
-            problems.append('loop is not 0..len(data)')
-        elif len(pushes) != 1 or pushes[0].bb not in loops[0]['blocks']:
-            problems.append('expected exactly one push per iteration')
-        else:
-            i = loops[0]['item']
-            v = pushes[0].args[1]
-            split = _unsite(('call', 'core::slice::<impl [T]>::split_at', (data, i), None))
-            okv = tag(v) == 'call' and short(v[1]) == 'to_vec' and _unsite(v[2][0]) == ('field', split, 0, None)
-            exts = [c for c in f.calls() if c.path and short(c.path) in ('extend_from_slice', 'extend') and c.args[0] == v]
-            rest_ok = False
-            if len(exts) == 1:
-                r = _unsite(exts[0].args[1])
-                # unwrap(split_first(split_at(data,i).1)).1
-                rest_ok = (tag(r) == 'field' and r[2] == 1 and tag(r[1]) == 'call' and short(r[1][1]) == 'unwrap' and
-                           tag(r[1][2][0]) == 'call' and short(r[1][2][0][1]) == 'split_first' and
-                           r[1][2][0][2][0] == ('field', split, 1, None))
-            if not okv:
-                problems.append('pushed vector does not start as a copy of data[..i]: %s' % show(v))
-            if not rest_ok:
-                problems.append('the tail appended is not data[i+1..] (split_first of the back half)')
-        if problems:
-            rep.viol('counts', key, '; '.join(problems), site_of(f.body))
-        else:
-            rep.ok('counts', key, 'n pushes; i-th vector = data[..i] ++ data[i+1..]')
+        try:
+            i = None
+            value = None
+            frame = f
+            loops = [li for li in f.loop_info() if li['item'] is not None]
+            pushes = [c for c in f.calls() if c.path and short(c.path) == 'push' and rets and c.args[0] == rets[0]]
+            if len(loops) == 1 and len(pushes) == 1 and pushes[0].bb in loops[0]['blocks']:
+                i, rng, value = loops[0]['item'], loops[0]['iter'], pushes[0].args[1]
+            elif len(rets) == 1 and tag(rets[0]) == 'call' and short(rets[0][1]) == 'collect' and tag(rets[0][2][0]) == 'call' and short(rets[0][2][0][1]) == 'map':
+                it, cl = rets[0][2][0][2]
+                while tag(it) == 'call' and short(it[1]) in ('into_iter', 'iter') and it[2]:
+                    it = it[2][0]
+                g = prog.func(cl[2]) if tag(cl) == 'agg' and cl[1] == 'closure' else None
+                if g is None or len(g.return_values()) != 1:
+                    raise Unknown('map closure')
+                frame = g
+                rng = it
+                i = ('arg', 2, g.names.get(2))
+                value = g.return_values()[0]
+                # captured variables of the closure: data
+                caps = cl[3]
+            else:
+                raise Unknown('neither a counting loop with one push nor (range).map(..).collect()')
+            if not (tag(rng) == 'range' and tag(rng[1]) == 'const' and rng[1][2] == 0):
+                raise Unknown('index range %s' % show(rng)[:40])
+            n_ok = rng[2] == ('len', data) or (tag(rng[2]) == 'call' and short(rng[2][1]) == 'len' and rng[2][2][0] == data)
+            bs = {}
+            if frame is not f:
+                for ci, cap in enumerate(caps):
+                    if cap == data:
+                        for z in subterms(value):
+                            if tag(z) == 'upvar' and z[1] == ci:
+                                bs[z] = (data, {}, poly(('len', data)))
+            from ..segs import all_alternatives
+            alts = all_alternatives(lambda: SegEval(prog, frame, bs, {}), value)
+            L = poly(('len', data))
+            want = normalise([(data, {}, poly(i)), (data, padd_(poly(i), 1), L)])
+
+            def eq_(segs):
+                return len(segs) == len(want) and all(a[0] == b[0] and peq(a[1], b[1]) and peq(a[2], b[2]) for a, b in zip(segs, want))
+            wrong = [sg for sg in alts if not eq_(sg)]
+            same = not wrong
+            segs = wrong[0] if wrong else alts[0]
+
+            def shs(ss):
+                return ' ++ '.join('data[%s..%s)' % (pshow(lo, show) or '0', pshow(hi, show)) for _, lo, hi in ss)
+            problems = []
+            if not n_ok:
+                problems.append('the index runs over %s, not 0..len(data)' % show(rng)[:40])
+            if not same:
+                problems.append('the i-th resample is %s, expected %s (the leave-one-out vector in order)' % (shs(segs), shs(want)))
+            if problems:
+                rep.viol('counts', key, '; '.join(problems), site_of(f.body))
+            else:
+                rep.ok('counts', key, 'n resamples; i-th = data[0..i) ++ data[i+1..len)')
+        except Unknown as e:
+            rep.undecided('counts', key, 'assembly idiom outside the segment algebra: %s' % e, site_of(f.body), proof=False)
     rep.floor('counts', 2, 'bootstrap, jackknife')
     for name in ('shuffle', 'shuffle_two'):
         f = prog.func(RS + name)
@@ -268,6 +300,11 @@ def run(prog, rep, tier, repo):
     from ..chunks import check_chunk_remainder
     check_chunk_remainder(prog, rep, 'chunk-remainder', lambda k: k.startswith('validation::resample') or 'discreteuniform' in k or k.startswith('distributions::Distribution1D'))
     return {}
+
+
+def padd_(p, c):
+    from ..poly import padd
+    return padd(p, {(): c})
 
 
 def _unsite(t):
